@@ -281,17 +281,23 @@ def work_runtime(task):
             for k in range(1, n + 1):
                 items = ", ".join(str(i) for i in range(1, n + 1))
                 for bad in ("drop drop", "swap", "rot", "over", "drop dup"):
-                    q = "(%s) if ( == %d) then (%s) else ()" % (items, k, bad)
-                    r = drv.run(q, flags=8, limit=100, steps=100000)
-                    ev.case(key=q, nontrivial=True)
-                    ev.label("runtime-failure-at-pull")
-                    ok = "error" in r and r["error"] and "CONTRACT" not in r["error"] and len(r.get("res", [])) == k - 1 \
-                        and not r.get("end")
-                    if not ok:
-                        ev.violations.append({"property": PID, "query": q,
-                                              "reason": "expected %d results then an error through zw_result_next, got %r"
-                                                        % (k - 1, {kk: (v if kk != "res" else len(v)) for kk, v in r.items() if kk != "marks"}),
-                                              "signature": "C14:rt:" + q})
+                    body = "(%s) if ( == %d) then (%s) else ()" % (items, k, bad)
+                    # ... at top level, and where the failing expression is pulled lazily from inside another construct:
+                    # a format splice, the body of a let, a branch of an alternation (results come out one by one, the
+                    # failure when its turn comes)
+                    for q, before in ((body, k - 1), ('"<%%( %s %%)>"' % body, k - 1), ("let A := %s; A" % body, k - 1), ("(0, %s)" % body, k)):
+                        if (bad != "drop drop" or n > 4) and q is not body:
+                            continue
+                        r = drv.run(q, flags=8, limit=100, steps=100000)
+                        ev.case(key=q, nontrivial=True)
+                        ev.label("runtime-failure-at-pull")
+                        ok = "error" in r and r["error"] and "CONTRACT" not in r["error"] and len(r.get("res", [])) == before \
+                            and not r.get("end")
+                        if not ok:
+                            ev.violations.append({"property": PID, "query": q,
+                                                  "reason": "expected %d results then an error through zw_result_next, got %r"
+                                                            % (before, {kk: (v if kk != "res" else len(v)) for kk, v in r.items() if kk != "marks"}),
+                                                  "signature": "C14:rt:" + q})
         ev.sample({"runtime_failure_query": "(1, 2, 3) if ( == 2) then (drop drop) else ()", "expect": "1 result, then error"})
     finally:
         drv.kill()
